@@ -204,7 +204,41 @@ def check_chained(c):
 
 
 def shrink_failure(evaluator, case):
-    return case
+    """drop records, then fields of records, as long as the property still fails outside the known classes
+    (the path text only addresses the enclosing structure, so it stays valid)"""
+    check = check_chained if case.get("chained") else check_select
+
+    def fails(c):
+        try:
+            return check(c) is not None and classify(c) is None
+        except Exception:
+            return False
+
+    if not fails(case):
+        return case
+    cur = copy.deepcopy(case)
+    changed = True
+    while changed:
+        changed = False
+        recs = X.get_at(cur["tree"], cur["pos"])
+        for i in range(len(recs)):
+            cand = copy.deepcopy(cur)
+            del X.get_at(cand["tree"], cand["pos"])[i]
+            if fails(cand):
+                cur, changed = cand, True
+                break
+        if changed:
+            continue
+        for i, r in enumerate(recs):
+            for key in list(r):
+                cand = copy.deepcopy(cur)
+                del X.get_at(cand["tree"], cand["pos"])[i][key]
+                if fails(cand):
+                    cur, changed = cand, True
+                    break
+            if changed:
+                break
+    return cur
 
 
 def replay(rp):
